@@ -991,6 +991,58 @@ fn gen_drop_with_indexes(rng: &mut Rng, out: &mut Vec<Case>) {
     out.push(Case { line: format!("ddl | {}", ops.join(" ; ")), tags });
 }
 
+/// A transaction REFUSED at commit stays rolled back across a reopen, all three kinds of write-set conflict: the same row
+/// (both delete it; the loser is the first deleter), the same unique key (the loser is the second inserter), the same
+/// table NAME (the loser created the name and dropped it again, the winner created it meanwhile — the name stays in the
+/// loser's write set, finding commitChecksInsertedKeysOnly).  The loser also inserts into another table and creates a
+/// table of its own; after the refused COMMIT more work is committed, then reopen and reads.
+fn gen_refused_commit_reopen(rng: &mut Rng, out: &mut Vec<Case>) {
+    let mut ops: Vec<String> = vec!["db ct u(k:big*,v:int)".into(), "db ins u 1 10 ; db ins u 2 20".into()];
+    let kind = rng.below(3);
+    let (lo, wi) = if rng.chance(1, 2) { ("s1", "s2") } else { ("s2", "s1") };
+    ops.push(format!("{} begin ; {} begin", lo, wi));
+    let mut tags: Vec<String> = vec!["c15".into(), "refused_commit_reopen".into(), "reopen".into(), "nt".into()];
+    match kind {
+        0 => {
+            ops.push(format!("{} del u where v eq 10 ; {} del u where v eq 10", lo, wi));
+            tags.push("refused_same_row".into());
+            tags.push("clean".into());
+        }
+        1 => {
+            ops.push(format!("{} ins u 5 50 ; {} ins u 5 51", wi, lo));
+            tags.push("refused_same_key".into());
+            tags.push("clean".into());
+        }
+        _ => {
+            ops.push(format!("{} ct t(k:big) ; {} dt t ; {} ct t(k:int,v:int)", lo, lo, wi));
+            tags.push("refused_same_name".into());
+            tags.push("kf:refused_same_name".into());
+        }
+    }
+    // the loser's other work
+    ops.push(format!("{} ins u 7 70", lo));
+    if rng.chance(1, 2) {
+        ops.push(format!("{} ct w(a:int) ; {} ins w 1", lo, lo));
+    }
+    ops.push(format!("{} commit ; {} commit", wi, lo));
+    match rng.below(3) {
+        0 => ops.push("db ins u 8 80".into()),
+        1 => ops.push("s3 begin ; s3 ins u 8 80 ; s3 commit".into()),
+        _ => {}
+    }
+    if rng.chance(1, 3) {
+        ops.push("db sel u".into());
+    }
+    ops.push("reopen".into());
+    ops.push("db sel u ; db sel w ; db sel t".into());
+    // what only the loser had inserted is free
+    ops.push("db ins u 7 71 ; db ct w(a:int,b:int) ; db ins w 1 2 ; db sel w".into());
+    if rng.chance(1, 2) {
+        ops.push("reopen ; db sel u ; db sel w".into());
+    }
+    out.push(Case { line: format!("ddl | {}", ops.join(" ; ")), tags });
+}
+
 /// CREATE UNIQUE INDEX / ADD CONSTRAINT UNIQUE over rows that collide: refused, and the table must stay usable (rows
 /// inserted and read afterwards, duplicates still accepted); then the duplicates are deleted, the same DDL succeeds
 /// and a duplicate is refused; in autocommit or inside a session that goes on and commits, sometimes with a reopen.
@@ -1044,6 +1096,9 @@ impl Engine for DdlEngine {
         }
         for _ in 0..(if tier == Tier::Quick { 60 } else { 600 }) {
             gen_drop_with_indexes(rng, &mut out);
+        }
+        for _ in 0..(if tier == Tier::Quick { 30 } else { 300 }) {
+            gen_refused_commit_reopen(rng, &mut out);
         }
         let want = if tier == Tier::Quick { 600 } else { 6000 };
         let want = want + out.len();
